@@ -33,9 +33,9 @@ Definition errs_wellformed (src : text) (errs : list err) : Prop :=
    the other two repairs, every span of every reported error is well-formed in
    the full text *)
 Definition lex_error_spans_wellformed_stmt : Prop :=
-  forall fx src pos awc pe re_bad errs,
+  forall fx src pos awc pe iw re_bad errs,
     fix_header fx = true -> fix_target_span fx = true ->
-    lex_from_str fx src pos awc pe re_bad = Done (PErrs errs) ->
+    lex_from_str fx src pos awc pe iw re_bad = Done (PErrs errs) ->
     Forall (fun e => Forall (wf_span src) (e_spans e)) errs.
 
 (* ---- the pinned code (no repair): the header is sliced off and the rest is
@@ -43,9 +43,9 @@ Definition lex_error_spans_wellformed_stmt : Prop :=
    with respect to the text the user wrote; they can split a character of it.
    [pos] is a character boundary, as the header parser returns one. *)
 Definition lex_error_spans_refuted_stmt : Prop :=
-  exists src pos awc pe re_bad errs,
+  exists src pos awc pe iw re_bad errs,
     boundary src pos /\
-    lex_from_str today src pos awc pe re_bad = Done (PErrs errs) /\
+    lex_from_str today src pos awc pe iw re_bad = Done (PErrs errs) /\
     ~ Forall (fun e => Forall (wf_span src) (e_spans e)) errs.
 
 (* ---- the header repair alone is not enough: without the target-span repair the
@@ -53,11 +53,12 @@ Definition lex_error_spans_refuted_stmt : Prop :=
    there; in a DuplicateName error it can end inside a character (no header
    involved: pos = 0) *)
 Definition header_fixed_only : fixes :=
-  {| fix_header := true; fix_target_span := false; fix_prefix_unescape := false; fix_dangling := false |}.
+  {| fix_header := true; fix_target_span := false; fix_prefix_unescape := false; fix_dangling := false;
+     fix_iw := false |}.
 
 Definition lex_error_spans_target_refuted_stmt : Prop :=
-  exists src awc pe re_bad errs,
-    lex_from_str header_fixed_only src 0 awc pe re_bad = Done (PErrs errs) /\
+  exists src awc pe iw re_bad errs,
+    lex_from_str header_fixed_only src 0 awc pe iw re_bad = Done (PErrs errs) /\
     ~ Forall (fun e => Forall (wf_span src) (e_spans e)) errs.
 
 (* ---- witnesses ---- *)
@@ -78,9 +79,9 @@ Definition errspan_target_src : text :=
 (* the positive theorem is not vacuous: a text on which the repaired variant reports an
    error with a span, which is then well-formed *)
 Definition lex_error_spans_example_stmt : Prop :=
-  lex_from_str repaired errspan_src 11 false false []
+  lex_from_str repaired errspan_src 11 false false false []
     = Done (PErrs [{| e_kind := MissingSpace; e_spans := [(27, 27)] |}]) /\
   wf_span errspan_src (27, 27) /\
-  lex_from_str repaired errspan_target_src 0 false false []
+  lex_from_str repaired errspan_target_src 0 false false false []
     = Done (PErrs [{| e_kind := DuplicateName; e_spans := [(11, 15); (23, 27)] |}]) /\
   wf_span errspan_target_src (11, 15) /\ wf_span errspan_target_src (23, 27).
